@@ -603,7 +603,7 @@ def dump(db, f, **options):
             mux_switch = create_sub_element_fx(mux, "SWITCH")
             mux_switch.set("ID", "PDU_" + frame.name + "_SWITCH")
             create_sub_element_ho(mux_switch, "SHORT-NAME", signals_switch[0].name)
-            create_sub_element_fx(mux_switch, "BIT-POSITION", str(signals_switch[0].start_bit))
+            create_sub_element_fx(mux_switch, "BIT-POSITION", str(signals_switch[0].get_startbit(bit_numbering=1)))
             create_sub_element_fx(mux_switch, "IS-HIGH-LOW-BYTE-ORDER",
                                   "false" if signals_switch[0].is_little_endian else "true")
             create_sub_element_ho(mux_switch, "BIT-LENGTH", str(signals_switch[0].size))
